@@ -423,6 +423,7 @@ def explore(tier, seed, res=None, replay=None):
             cases.append((None, len(cases)))
     jobs = []
     whole_by_path = {}
+    removed_by_path = {}
     for f, path in cases:
         r = rng_for(seed, "c09", path)
         df = make_frame(r)
@@ -454,8 +455,28 @@ def explore(tier, seed, res=None, replay=None):
                 extra = [rf.choice(RARE_GROUPS)] if rf.random() < 0.6 else extra + [rf.choice(RARE_GROUPS)]
             lhs, rhs = formula.split(" ~ ")
             formula = lhs + " ~ " + " + ".join(rhs.split(" + ") + extra)
+        # a variable all of whose terms are removed again with `-` is NOT used by the formula: its
+        # missing values are ignored (own PRNG stream; eleventh seeded wave, C09_Q: the set of used
+        # names was kept up to date on `+` only)
+        rm = rng_for(seed, "c09", path, "removed-terms")
+        removed = None
+        if replay is not None:
+            removed = replay.get("variable_whose_terms_are_removed")   # (the formula has the suffix)
+        elif f is None and rm.random() < 0.3:
+            import re as _re
+            free = [(v, c) for v, c in (("z", "z"), ("x", "x"), ("ni", "ni"), ("`w z`", "w z"))
+                    if not _re.search(r"(?<![A-Za-z_`])" + _re.escape(v.strip("`")) + r"(?![A-Za-z_])",
+                                      formula)]
+            if free:
+                v, c = rm.choice(free)
+                formula += rm.choice([" + {v} - {v}", " + f*{v} - {v} - f:{v}",
+                                      " + {v} + g:{v} - {v} - g:{v}"]).format(v=v)
+                removed = c
+        removed_by_path[path] = removed
         # missingness: numeric columns (any policy); categorical ones only when not testing pass
         cols = r.sample(NUM, r.randrange(0, 4))
+        if removed and removed not in cols:
+            cols.append(removed)
         if not pointwise and r.random() < 0.5:
             cols += r.sample(CAT + ["unused2"], r.randrange(1, 3))
         # now and then most rows are incomplete (more rows dropped than kept)
@@ -508,6 +529,9 @@ def explore(tier, seed, res=None, replay=None):
         case = {"formula": formula, "seed_path": path, "missing_in": cols}
         if whole_by_path.get(path):
             case["whole_number_response"] = whole_by_path[path]
+        if removed_by_path.get(path):
+            case["variable_whose_terms_are_removed"] = removed_by_path[path]
+            res.count("formulas with a variable whose terms are all removed again (not used)")
         if callee:
             case["unused_columns_named_like_called_functions"] = {
                 c: {"missing_at_positions": rows} for c, rows in callee.items()}
